@@ -17,7 +17,7 @@ import time
 VERIF = os.path.dirname(os.path.dirname(os.path.abspath(__file__)))
 REPO = os.environ.get("CX_REPO", "/repo")
 DRIVER = os.path.join(VERIF, "driver", "target", "release", "cxfacts")
-CACHE = os.path.join(VERIF, ".cache")
+CACHE = os.environ.get("CX_CACHE_DIR") or os.path.join(VERIF, ".cache")
 
 # build configurations (DESIGN §2.2)
 CONFIGS = {
